@@ -16,6 +16,7 @@ package limits
 //@               - params.NbAvailablesPod - params.NbOldAvailablesPod) + params.NbOldUnavailablePods))
 //@
 //@ lemma [C03] budget_available_deleted(N int, a int, oa int, ou int, ur int, M int, S int)
+//@   requires N >= 0 && a >= 0 && oa >= 0 && ou >= 0 && ur >= 0 && a + oa + ou + ur <= N
 //@   let U = N - min(ur, S) - a - oa
 //@   let d = max(0, min(M, M - U + ou))
 //@   ensures available-deleted: max(0, d - ou) <= max(0, M - U)
